@@ -587,6 +587,26 @@ def resolve_temp(func_node, expr, depth=0):
     return expr
 
 
+def expand_temps(func_node, expr):
+    """copy of `expr` in which every single-assignment temporary is replaced by the expression it stands for"""
+    import copy as _copy
+
+    class _Sub(ast.NodeTransformer):
+        def __init__(self):
+            self.depth = 0
+
+        def visit_Name(self, n):
+            if isinstance(n.ctx, ast.Load) and self.depth < 6:
+                r = resolve_temp(func_node, n)
+                if r is not n:
+                    self.depth += 1
+                    out = self.visit(_copy.deepcopy(r))
+                    self.depth -= 1
+                    return out
+            return n
+    return _Sub().visit(_copy.deepcopy(expr))
+
+
 def walk_no_nested(node):
     """ast.walk that does not descend into nested function/class definitions (but yields them)."""
     stack = list(ast.iter_child_nodes(node))
